@@ -130,6 +130,18 @@ def main():
     assumptions = list(PY_SEMANTICS)
     ev_cov = {}
 
+    # ---------------- conformance of the dependency models (a disagreement is a checker defect) ----
+    if "--no-proof" not in args:
+        try:
+            from contracts import arrays as _arr, models as _mod, specs as _specs
+
+            for name, fn in (("specs", _specs.conformance), ("models", _mod.conformance), ("arrays", _arr.conformance)):
+                bad = fn()
+                if bad:
+                    crashes.append("model conformance (%s) disagrees with numpy/CPython: %s" % (name, bad[:3]))
+        except Exception:
+            crashes.append("model conformance crashed: " + traceback.format_exc())
+
     # ---------------- tier P: contracts -----------------------------------------------------------
     summ = {}
     functions = {}
